@@ -100,7 +100,7 @@ def generate(rng, tier):
             out.append(Case(f'tc extract {hx(tp + suf)} -', H, ('extract', 'version-suffix')))
         out.append(Case(f'tc extract {hx(tp[:-1])} -', H, ('extract', 'version-short')))
         # the same version byte spelled with upper-case / mixed-case hex digits (the parser is case-insensitive, so FF is ff)
-        for alt in {ver.upper(), ver[:1].upper() + ver[1:], ver[:1] + ver[1:].upper()} - {ver}:
+        for alt in sorted({ver.upper(), ver[:1].upper() + ver[1:], ver[:1] + ver[1:].upper()} - {ver}):
             out.append(Case(f'tc extract {hx(alt + tp[2:])} -', H, ('extract', 'version-case')))
             out.append(Case(f'tc extract {hx(alt + tp[2:] + b"-00")} -', H, ('extract', 'version-case')))
     # ---- whitespace around
